@@ -21,6 +21,9 @@ type LargeCase struct {
 	// it WINDOW_UPDATEs; then the path recovers. Whatever the relay writes next must still
 	// be the block's CONTINUATION frames.
 	Stall bool `json:"stall,omitempty"`
+	// Rep distinguishes repetitions of a stall case (the window in which a foreign frame
+	// can get between the fragments depends on goroutine scheduling).
+	Rep int `json:"rep,omitempty"`
 }
 
 func runLarge(c LargeCase) kit.Verdict {
@@ -36,7 +39,13 @@ func runLarge(c LargeCase) kit.Verdict {
 }
 
 func runLargeOnce(c LargeCase, bound time.Duration) (v kit.Verdict, slow bool) {
-	s, err := h2kit.Open(h2kit.Options{Bound: bound})
+	o := h2kit.Options{Bound: bound}
+	if c.Stall && c.Reverse {
+		// a narrow pipe toward the client: every fragment takes several hand-overs between the
+		// relay's writer and the client, so whoever waits for the relay's write lock gets to run
+		o.OutLimit = 2048
+	}
+	s, err := h2kit.Open(o)
 	if err != nil {
 		return kit.Failf("C08/session/setup/relay-did-not-connect", "%v", err), true
 	}
@@ -79,7 +88,9 @@ func runLargeOnce(c LargeCase, bound time.Duration) (v kit.Verdict, slow bool) {
 		// the relay's writer is inside the write of the first frame ...
 		kit.Eventually(bound, func() bool { return s.Duplex.StalledWrites() >= 1 })
 		// ... the relay reads the client's DATA and queues up to return credit ...
-		R.WriteData(1, kit.Bytes(3, 100), -1, false)
+		for i := 0; i < 8; i++ {
+			R.WriteData(1, kit.Bytes(3, 100), -1, false)
+		}
 		kit.Eventually(bound, func() bool { return s.Duplex.Pending() == 0 })
 		time.Sleep(5 * time.Millisecond) // (sets the scene only; not part of the oracle)
 		// ... and the client's receive path recovers
@@ -151,10 +162,15 @@ func TestLargeBlocks(t *testing.T) {
 		t.Skip("sequential enumeration")
 	}
 	propLargeBlocks.Enumerate(t, func(yield func(LargeCase) bool) {
-		for _, value := range []int{20000, 40000, 100000} {
-			for _, prio := range []bool{false, true} {
-				if !yield(LargeCase{Reverse: true, Stall: true, Value: value, Prio: prio, End: value == 40000}) {
-					return
+		for rep := 0; rep < 4; rep++ {
+			for _, value := range []int{20000, 40000, 100000, 300000} {
+				for _, prio := range []bool{false, true} {
+					if rep > 0 && value < 100000 {
+						continue // the long blocks are the ones worth repeating
+					}
+					if !yield(LargeCase{Reverse: true, Stall: true, Value: value, Prio: prio, End: value == 40000, Rep: rep}) {
+						return
+					}
 				}
 			}
 		}
